@@ -106,6 +106,10 @@ func (sv *Solver) solve(un *Unit, o *Obl) {
 		return
 	}
 	o.SmtFile = file
+	sv.solveFile(un, o, file)
+}
+
+func (sv *Solver) solveFile(un *Unit, o *Obl, file string) {
 	ctx, cancel := context.WithCancel(context.Background())
 	defer cancel()
 	results := make(chan solveResult, len(solvers))
@@ -168,6 +172,30 @@ func (sv *Solver) solve(un *Unit, o *Obl) {
 		sv.disagreements = append(sv.disagreements, o.Name)
 		sv.mu.Unlock()
 		return
+	}
+	if !decided && !o.Cover && !strings.HasSuffix(o.SmtFile, ".cex.smt2") {
+		// second stage (counterexample search): quantified hypotheses dropped
+		first := o.Output
+		var parts []string
+		for _, r := range all {
+			parts = append(parts, r.solver+":"+r.answer)
+		}
+		file2 := strings.TrimSuffix(file, ".smt2") + ".cex.smt2"
+		if err := os.WriteFile(file2, []byte(un.smtForOpt(o, true, true)), 0o644); err == nil {
+			o.SmtFile = file2
+			sv.solveFile(un, o, file2)
+			if o.Status == "failed" {
+				o.Output = "sat with quantified hypotheses dropped (candidate counterexample); full query: " + strings.Join(parts, " ")
+				o.Candidate = true
+			} else if o.Status == "discharged" {
+				o.Output = "unsat (proved without the quantified hypotheses); full query: " + strings.Join(parts, " ")
+			} else {
+				o.SmtFile = file
+				o.Status = "unknown"
+				o.Output = strings.Join(parts, " ") + " " + first
+			}
+			return
+		}
 	}
 	if !decided {
 		o.Status = "unknown"
